@@ -983,3 +983,37 @@ def fam_cond_two_plain():
                                dict(tick=0.125, inits=list(ENV_INITS),
                                     framers=[dict(name="m", schedule="active", frames=frames), aux_framer_ext("x", kx),
                                              aux_framer_ext("y", ky), aux_framer("z", "never")]), dict())
+
+
+def fam_clone_shapes():
+    """moot framers whose frame forest uses everything a clone must copy: an `under` override of the primary child, a
+    non-default `first` frame, explicit `next` links and `go next`; cloned as named / insular / reared clones.  The
+    clone must walk exactly the frames its original would as an ordinary auxiliary."""
+    ctxs = ("enter", "exit", "recur")
+    for under in (None, "c"):
+        for first in (None, "d"):
+            for nxt in (None, "a"):
+                init = [("put", "enter", 0, "nb of framer"), ("put", "enter", 0, "nc of framer")]
+                a = dict(name="a", items=recs("a", ctxs) + init + [("put", "enter", 1, "seen of framer"), ("go", "next", [E0])])
+                if under:
+                    a["under"] = under
+                b = dict(name="b", over="a", items=recs("b", ctxs) + [("inc", "recur", "nb of framer", 1)])
+                c = dict(name="c", over="a", items=recs("c", ctxs) + [("inc", "recur", "nc of framer", 1)])
+                d = dict(name="d", items=recs("d", ctxs) + init + [("go", "next", [E1])])
+                if nxt:
+                    d["next"] = nxt
+                else:
+                    d["items"][-1] = ("go", "a", [E1])
+                mo = dict(name="ms", schedule="moot", frames=[a, b, c, d])
+                if first:
+                    mo["first"] = first
+                for how in ("c1", "mine", "c1+mine", "rear"):
+                    f0 = recs("f0", ctxs)
+                    frames = [dict(name="f0", items=f0)]
+                    if how == "rear":
+                        f0 += [("rear", "enter", "ms", "f1"), ("go", "f1", [("cmp", "env.e0", "==", 0, None, False)])]
+                        frames.append(dict(name="f1", items=recs("f1", ctxs)))
+                    else:
+                        f0 += [("auxclone", "ms", t) for t in how.split("+")]
+                    prog = dict(tick=0.125, inits=list(ENV_INITS), framers=[dict(name="m", schedule="active", frames=frames), mo])
+                    yield ("cloneshapes/under-%s/first-%s/next-%s/%s" % (under, first, nxt, how), prog, dict())
